@@ -23,9 +23,9 @@ import lib_agser as L
 
 PROPERTY = "C12"
 SCOPE = {
-    "quick": "all graphs on <=2 nodes (12 node variants: or / and / defense x viable x necessary, all edge sets incl. self "
-             "loops) x all sequences of 3 compromises (attacker, node) by 2 attackers (2 nodes: first move by attacker 0); all graphs on 3 or/and nodes x "
-             "all labels x all edge sets without self loops x 2 seeded compromise sequences of length 3; 6000 seeded random "
+    "quick": "all graphs on <=2 nodes (10 node variants: or / and x viable x necessary, enabled / disabled defense; all edge sets incl. self "
+             "loops) x all sequences of 3 compromises (attacker, node) by 2 attackers (2 nodes: first move by attacker 0); all 24 'wide' variants alone and in pairs; all graphs on 3 or/and nodes x "
+             "all labels x all edge sets without self loops x 1 seeded compromise sequence of length 3; 6000 seeded random "
              "graphs of 3-4 nodes over 24 variants (also exist / notExist, suppressed / half-enabled / status-less "
              "defenses, self loops) x random sequences of <=3 compromises (repeats allowed); every query is evaluated after "
              "every prefix of the sequence, the incremental update from every earlier prefix to every later one",
@@ -56,8 +56,8 @@ FN_DS = Q + "get_defense_surface"
 FN_ED = Q + "get_enabled_defenses"
 
 # small exhaustive variant set: (type, viable, necessary, defense_status, tags)
-SMALL = [(t, v, n, (1.0 if (v and t == "defense") else 0.0) if t == "defense" else None, [])
-         for t in ("or", "and", "defense") for v in (True, False) for n in (True, False)]
+SMALL = [(t, v, n, None, []) for t in ("or", "and") for v in (True, False) for n in (True, False)] + \
+        [("defense", True, True, 1.0, []), ("defense", False, False, 0.0, [])]
 ORAND = [(t, v, n, None, []) for t in ("or", "and") for v in (True, False) for n in (True, False)]
 WIDE = SMALL + [
     ("defense", True, True, 1.0, ["suppress"]), ("defense", True, False, 0.0, ["suppress", "x"]),
@@ -72,6 +72,21 @@ SETS = {"small": SMALL, "orand": ORAND, "wide": WIDE}
 
 def cases(tier, seed):
     rnd = random.Random(seed)
+    # every single wide variant alone and next to an or-node (defense definitions: suppress tag, status)
+    for v in range(len(WIDE)):
+        for edges in ([], [[0, 0]]):
+            yield {"set": "wide", "nodes": [v], "edges": edges, "names": ["a", "b"], "seq": [[0, 0], [1, 0]]}
+        for w in range(len(WIDE)):
+            yield {"set": "wide", "nodes": [v, w], "edges": [[0, 1], [1, 0]], "names": ["x", "x"], "seq": [[0, 0], [1, 1], [0, 1]]}
+    # random
+    count, hi, sl = (6000, 4, 3) if tier == "quick" else (150000, 5, 4)
+    for _ in range(count):
+        n = rnd.randint(3, hi)
+        vs = [rnd.randrange(len(WIDE)) for _ in range(n)]
+        dens = rnd.choice((0.2, 0.4, 0.7))
+        edges = [[i, j] for i in range(n) for j in range(n) if rnd.random() < dens]
+        seq = [[rnd.randrange(2), rnd.randrange(n)] for _ in range(rnd.randint(1, sl))]
+        yield {"set": "wide", "nodes": vs, "edges": edges, "names": rnd.choice([["a", "b"], ["x", "x"]]), "seq": seq}
     # exhaustive: n <= 2, every sequence of 3 compromises
     for n in (1, 2):
         pairs = [(i, j) for i in range(n) for j in range(n)]
@@ -87,22 +102,13 @@ def cases(tier, seed):
     # exhaustive graphs on 3 or/and nodes (no self loops), sampled sequences
     pairs = [(i, j) for i in range(3) for j in range(3) if i != j]
     moves = [(a, i) for a in (0, 1) for i in range(3)]
-    k = 2 if tier == "quick" else 12
+    k = 1 if tier == "quick" else 12
     for vs in itertools.product(range(len(ORAND)), repeat=3):
         for mask in range(1 << len(pairs)):
             edges = [list(pairs[q]) for q in range(len(pairs)) if mask >> q & 1]
             for _ in range(k):
                 seq = [list(rnd.choice(moves)) for _ in range(3)]
                 yield {"set": "orand", "nodes": list(vs), "edges": edges, "names": ["a", "b"], "seq": seq}
-    # random
-    count, hi, sl = (6000, 4, 3) if tier == "quick" else (150000, 5, 4)
-    for _ in range(count):
-        n = rnd.randint(3, hi)
-        vs = [rnd.randrange(len(WIDE)) for _ in range(n)]
-        dens = rnd.choice((0.2, 0.4, 0.7))
-        edges = [[i, j] for i in range(n) for j in range(n) if rnd.random() < dens]
-        seq = [[rnd.randrange(2), rnd.randrange(n)] for _ in range(rnd.randint(1, sl))]
-        yield {"set": "wide", "nodes": vs, "edges": edges, "names": rnd.choice([["a", "b"], ["x", "x"]]), "seq": seq}
 
 
 # ---------------------------------------------------------------------------------------------------
